@@ -161,6 +161,8 @@ def run(tier):
             return out
 
         for fn, (spec, own, _t) in sorted(cr.RULES.items()):
+            if owns is not None and (CTX + fn) in owns and owns[CTX + fn] is None:
+                continue  # (own set not extracted: reported once as an analysis error)
             got = merge((owns or {}).get(CTX + fn))
             rep.ob("own-set", "%s applies to %s" % (fn, ", ".join("%04X..%04X" % x for x in own)), got == sorted(own), "implementation's own set: %s" % (["%04X..%04X" % x for x in (got or [])][:4],), key="own-set|%s" % fn)
         routed = {}
